@@ -24,7 +24,9 @@ import (
 	"math/rand"
 	"os"
 	"runtime"
+	"sort"
 	"sync"
+	"time"
 
 	"github.com/hashicorp/consul/agent/connect"
 	"github.com/hashicorp/consul/agent/consul/state"
@@ -41,7 +43,8 @@ type Ixn struct {
 }
 
 type Op struct {
-	Op  string `json:"op"`
+	Op  string `json:"op"` // name-keyed: upsert | delete ; identity-addressed: create | update | remove
+	ID  string `json:"id"` // abstract identity ("" for name-keyed writes)
 	Ixn Ixn    `json:"ixn"`
 }
 
@@ -78,9 +81,16 @@ func sourceOf(i Ixn) *structs.SourceIntention {
 }
 
 func legacyID(i Ixn) string {
-	h := sha1.Sum([]byte(i.Src + "\x00" + i.Peer + "\x00" + i.Dst))
+	return uuidOf(i.Src + "\x00" + i.Peer + "\x00" + i.Dst)
+}
+
+func uuidOf(s string) string {
+	h := sha1.Sum([]byte(s))
 	return fmt.Sprintf("%x-%x-%x-%x-%x", h[0:4], h[4:6], h[6:8], h[8:10], h[10:16])
 }
+
+// legacyTime: the endpoint stamps legacy writes with time.Now(); a constant keeps the harness off the wall clock
+var legacyTime = time.Unix(1600000000, 0).UTC()
 
 type runner struct {
 	rep string
@@ -90,7 +100,7 @@ type runner struct {
 
 func newRunner(rep string) *runner {
 	r := &runner{rep: rep, s: state.NewStateStore(nil), idx: 1}
-	if rep != "legacy" {
+	if rep != "legacy" && rep != "legacy-id" {
 		// what the leader does once at startup (LegacyIntentionDeleteAll sets the same key)
 		r.idx++
 		if err := r.s.SystemMetadataSet(r.idx, &structs.SystemMetadataEntry{
@@ -126,6 +136,37 @@ func (r *runner) apply(o Op) error {
 			return err
 		}
 		return r.s.LegacyIntentionSet(r.idx, ixn)
+	case "legacy-id":
+		// the legacy table addressed by UUID: a Set under an existing ID replaces the whole record
+		id := uuidOf("id:" + o.ID)
+		if o.Op == "remove" {
+			return r.s.LegacyIntentionDelete(r.idx, id)
+		}
+		ixn := &structs.Intention{ID: id, SourceNS: ns, SourceName: i.Src, DestinationNS: ns, DestinationName: i.Dst,
+			SourceType: structs.IntentionSourceConsul, Action: structs.IntentionAction(i.Act)}
+		//nolint:staticcheck
+		if err := ixn.Validate(); err != nil {
+			return err
+		}
+		return r.s.LegacyIntentionSet(r.idx, ixn)
+	case "ce-legacyid":
+		// the legacy API after the migration: Intention.Apply create/update/delete by ID becomes an
+		// IntentionMutation keyed by SourceIntention.LegacyID (computeApplyChangesLegacy*)
+		id := uuidOf("id:" + o.ID)
+		if o.Op == "remove" {
+			return r.s.IntentionMutation(r.idx, structs.IntentionOpDelete, &structs.IntentionMutation{ID: id})
+		}
+		ixn := &structs.Intention{ID: id, SourceNS: ns, SourceName: i.Src, DestinationNS: ns, DestinationName: i.Dst,
+			SourceType: structs.IntentionSourceConsul, Action: structs.IntentionAction(i.Act), CreatedAt: legacyTime, UpdatedAt: legacyTime}
+		//nolint:staticcheck
+		if err := ixn.Validate(); err != nil {
+			return err
+		}
+		val := ixn.ToSourceIntention(true)
+		if o.Op == "create" {
+			return r.s.IntentionMutation(r.idx, structs.IntentionOpCreate, &structs.IntentionMutation{Destination: ixn.DestinationServiceName(), Value: val})
+		}
+		return r.s.IntentionMutation(r.idx, structs.IntentionOpUpdate, &structs.IntentionMutation{ID: id, Value: val})
 	case "ce-upsert":
 		mut := &structs.IntentionMutation{Destination: structs.NewServiceName(i.Dst, nil), Source: structs.NewServiceName(i.Src, nil)}
 		if o.Op == "delete" {
@@ -428,7 +469,69 @@ func randomInput(seed int64, n int) Input {
 			ops = append(ops, Op{Op: "upsert", Ixn: i})
 		}
 		grp := Group{Rep: rep}
-		if r.Intn(4) > 0 {
+		if g%5 == 4 {
+			// identity-addressed history: creations, updates by identity that move the source and/or the
+			// destination between exact and wildcard, removals
+			grp.Rep = []string{"legacy-id", "ce-legacyid"}[r.Intn(2)]
+			var h []Op
+			live := map[string]Ixn{}
+			n := 0
+			steps := 2 + r.Intn(7)
+			for k := 0; k < steps; k++ {
+				pick := func() Ixn {
+					i := Ixn{Src: srcNames[r.Intn(4)], Dst: srcNames[r.Intn(3)], Act: []string{"allow", "deny"}[r.Intn(2)]}
+					if r.Intn(3) == 0 {
+						i.Src = "*"
+					}
+					if r.Intn(3) == 0 {
+						i.Dst = "*"
+					}
+					return i
+				}
+				var ids []string
+				for id := range live {
+					ids = append(ids, id)
+				}
+				sort.Strings(ids)
+				switch x := r.Intn(6); {
+				case len(ids) == 0 || x < 2:
+					n++
+					id := fmt.Sprintf("i%d", n)
+					i := pick()
+					h = append(h, Op{Op: "create", ID: id, Ixn: i})
+					taken := false
+					for _, l := range live {
+						if l.Src == i.Src && l.Dst == i.Dst {
+							taken = true
+						}
+					}
+					if !taken {
+						live[id] = i
+					}
+				case x < 5:
+					id := ids[r.Intn(len(ids))]
+					i := pick()
+					if grp.Rep == "ce-legacyid" {
+						i.Dst = live[id].Dst
+					}
+					h = append(h, Op{Op: "update", ID: id, Ixn: i})
+					taken := false
+					for lid, l := range live {
+						if lid != id && l.Src == i.Src && l.Dst == i.Dst {
+							taken = true
+						}
+					}
+					if !taken {
+						live[id] = i
+					}
+				default:
+					id := ids[r.Intn(len(ids))]
+					h = append(h, Op{Op: "remove", ID: id, Ixn: live[id]})
+					delete(live, id)
+				}
+			}
+			grp.Hists = append(grp.Hists, h)
+		} else if r.Intn(4) > 0 {
 			// permutations of the same creations
 			grp.Hists = append(grp.Hists, ops)
 			rev := make([]Op, 0, len(ops))
